@@ -95,10 +95,11 @@ Definition effect_reinvest (known : bool) (cur u pool : N) (v : Z) : option (lis
   then Some [Move (mk u B_REWBAL CUR_OLT 0) (bal pool CUR_OLT) v; Mint (mk u B_DELEGACT CUR_OLT 0) v]
   else None.
 
-(* WITHDRAW_REWARD (action/rewards/withdraw.go): reward pool -> signer, amount ToCoinWithBase(v).
-   Validate checks the currency NAME only: there is no sign check anywhere *)
+(* WITHDRAW_REWARD (action/rewards/withdraw.go): reward pool -> signer, amount ToCoinWithBase(v) = wrap64(v) * 10^18 (the
+   matured-claim bookkeeping rwcum_* is a side record, monitored separately).  Guards: Validate - currency OLT,
+   Amount.IsValid (value >= 0, 45cfd0d) and the value fits int64 (ed95e98: 2^64-2 used to arrive in the handler as -2) *)
 Definition effect_withdraw_reward (known : bool) (cur signer rpool : N) (v : Z) : option (list lop) :=
-  if known && is_olt cur
+  if known && is_olt cur && (0 <=? v) && fits64 v
   then Some [Burn (bal rpool CUR_OLT) (wrap64 v * E18); Mint (bal signer CUR_OLT) (wrap64 v * E18)]
   else None.
 
